@@ -177,6 +177,8 @@ pub struct Config {
     /// magnitude range used when a float counterexample has to be searched around a solver model
     pub float_search: (f64, f64),
     pub float_search_trials: u32,
+    /// contract stubs in force (names), see `stub_complex1`
+    pub stubs: Vec<String>,
 }
 
 impl Default for Config {
@@ -196,6 +198,7 @@ impl Default for Config {
             fp_timeout_ms: 60000,
             float_search: (1.0e-3, 1.0e3),
             float_search_trials: 4000,
+            stubs: Vec::new(),
         }
     }
 }
@@ -1440,6 +1443,41 @@ pub fn prove_fp(label: &str, assumptions: &[B], goal: B) -> Proof {
 }
 
 pub fn is_float() -> bool { with(|e| e.cfg.float) }
+
+/// Contract stub for a complex function of one complex argument (derived crate only; the call is
+/// inserted by retype.py at the top of the function body).  When the stub `name` is in force the
+/// function result is a pair of opaque reals determined by the argument terms, constrained only by
+/// the function's contract (which C14 decides for the real body).  Returns None otherwise.
+pub fn stub_complex1(name: &str, re: Sym, im: Sym) -> Option<(Sym, Sym)> {
+    let on = with(|e| e.concrete.is_none() && e.cfg.stubs.iter().any(|s| s == name));
+    if !on { return None; }
+    let (ri, ii) = (re.id(), im.id());
+    let u = Sym::var(&format!("{}(n{},n{}).re", name, ri, ii));
+    let v = Sym::var(&format!("{}(n{},n{}).im", name, ri, ii));
+    let z = Sym::lit(0.0);
+    match name {
+        "csqrt" => {
+            // principal square root: w^2 = z, Re w >= 0, and Im w >= 0 on the negative real axis
+            assume(eq(u * u - v * v, re));
+            assume(eq(Sym::lit(2.0) * u * v, im));
+            assume(le(z, u));
+            assume(B::implies(eq(u, z), le(z, v)));
+        }
+        "ccbrt" => {
+            // some cube root: w^3 = z
+            assume(eq(u * u * u - Sym::lit(3.0) * u * v * v, re));
+            assume(eq(Sym::lit(3.0) * u * u * v - v * v * v, im));
+        }
+        _ => return None,
+    }
+    Some((u, v))
+}
+
+/// Complex power with a constant exponent: only z^(1/3) is stubbed (contract: result^3 = z).
+pub fn stub_complex_pow(re: Sym, im: Sym, wre: Sym, wim: Sym) -> Option<(Sym, Sym)> {
+    let third = matches!((wre.const_val(), wim.const_val()), (Some(CVal::R(a)), Some(CVal::R(b))) if a == Rat::new(1, 3).unwrap() && b.is_zero());
+    if third { stub_complex1("ccbrt", re, im) } else { None }
+}
 
 /// Obligation that is discharged when both sides are the same arena node, and
 /// handed to the solver otherwise.
